@@ -11,7 +11,7 @@ import (
 
 func freshRules() []*Rule {
 	return []*Rule{
-		{ID: "FRESH", Props: []string{"C18"}, Min: 6,
+		{ID: "FRESH", Props: []string{"C18", "C08", "C17"}, Min: 6,
 			Doc: "every []byte handed to the caller by Row.Scan is freshly allocated (never the record's own slice, never the caller's previous buffer); the file pager returns fresh buffers; text values are produced by conversion",
 			Run: runFresh},
 		{ID: "SCANPURE", Props: []string{"C18"}, Min: 6,
